@@ -5,6 +5,8 @@ import (
 	"fmt"
 	"github.com/tobgu/qframe/aggregation"
 	"github.com/tobgu/qframe/config/csv"
+	"github.com/tobgu/qframe/function"
+	"github.com/tobgu/qframe/types"
 	"os"
 	"runtime"
 	"sort"
@@ -71,8 +73,24 @@ type family struct {
 	exprs    []qframe.Expression
 	csvOrder []string
 	csvCols  csv.ToConfigFunc
+	gbCols   groupby.ConfigFunc
 	clauses  []qframe.FilterClause
 	orders   []qframe.Order
+}
+
+type c11Builtin struct {
+	name    string
+	col     string
+	viaEval bool
+	fn      interface{}
+}
+
+// built-in functions of the default eval context (by name) and of the function package (handed to Apply)
+var c11Builtins = []c11Builtin{
+	{"str", "f1", true, nil}, {"str", "i1", true, nil}, {"str", "b1", true, nil}, {"str", "s1", true, nil}, {"abs", "f1", true, nil}, {"abs", "i1", true, nil},
+	{"upper", "s1", true, nil}, {"lower", "s1", true, nil}, {"len", "s1", true, nil}, {"float", "i1", true, nil}, {"bool", "i1", true, nil}, {"!", "b1", true, nil}, {"int", "b1", true, nil},
+	{"StrF", "f1", false, function.StrF}, {"StrI", "i1", false, function.StrI}, {"StrB", "b1", false, function.StrB}, {"UpperS", "s1", false, function.UpperS}, {"LenS", "s1", false, function.LenS},
+	{"UpperS", "e1", false, function.UpperS}, {"AbsI", "i1", false, function.AbsI},
 }
 
 var c11Names = []string{"root", "slice", "sorted", "filtered", "copied", "sorted+select"}
@@ -101,6 +119,7 @@ func TestC11(t *testing.T) {
 		var sharedClauses []hx.Clause
 		var sharedOrders []hx.Order
 		var sharedExprs []hx.Expr
+		focusFn := rapid.SampledFrom(c11Builtins).Draw(t, "focusfn")
 		var refTabs []hx.Table
 		mkFamily := func(first bool) family {
 			root := hx.Build(base)
@@ -143,6 +162,7 @@ func TestC11(t *testing.T) {
 			}
 			f.csvOrder = []string{"i1", "id", "s1", "f1", "e1"}
 			f.csvCols = csv.Columns(f.csvOrder)
+			f.gbCols = groupby.Columns("i1", "e1", "i1")
 			for _, c := range sharedClauses {
 				f.clauses = append(f.clauses, c.Build(hx.KindMap(f.tabs[5])))
 			}
@@ -172,7 +192,29 @@ func TestC11(t *testing.T) {
 				mi = 4 // more weight on the member that was itself made by adding a column (its column slice has a history)
 			}
 			tab, mn := tabs[mi], c11Names[mi]
-			switch rapid.IntRange(0, 19).Draw(t, "op") {
+			switch rapid.IntRange(0, 21).Draw(t, "op") {
+			case 20:
+				// the case's focus function (one built-in of the eval context or the function package) applied to a column:
+				// several operations of this kind in one case run the same library function at once
+				makers[i] = opMaker{desc: fmt.Sprintf("%s: built-in %s over %s (Eval=%v)", mn, focusFn.name, focusFn.col, focusFn.viaEval), scratch: true, mk: func(f family) func() string {
+					return func() string {
+						if focusFn.viaEval {
+							return snapFrame(f.members[mi].Eval("n1", qframe.Expr(focusFn.name, types.ColumnName(focusFn.col))))
+						}
+						return snapFrame(f.members[mi].Apply(qframe.Instruction{Fn: focusFn.fn, DstCol: "n1", SrcCol1: focusFn.col}))
+					}
+				}}
+			case 21:
+				// one groupby.Columns option value shared by Distinct and GroupBy calls
+				distinct := rapid.Bool().Draw(t, "gbdistinct")
+				makers[i] = opMaker{desc: fmt.Sprintf("%s: shared groupby.Columns option (distinct=%v)", mn, distinct), scratch: true, mk: func(f family) func() string {
+					return func() string {
+						if distinct {
+							return multiset(f.members[mi].Distinct(f.gbCols).Select("i1", "e1"))
+						}
+						return multiset(f.members[mi].GroupBy(f.gbCols).Aggregate(qframe.Aggregation{Fn: "count", Column: "id", As: "n"}))
+					}
+				}}
 			case 18:
 				// one Expression value evaluated by several operations at once (shared like clauses and orders are)
 				k := rapid.IntRange(0, len(sharedExprs)-1).Draw(t, "sharedexpr")
